@@ -17,6 +17,8 @@ GOOS=js GOARCH=wasm go build -o /dev/null ./cmd/stubprobe 2>/dev/null
 (cd /repo/arch && go build -o /dev/null mk_syscalls_linux.go 2>/dev/null)
 # race-enabled build (C13's free-running pass)
 CGO_ENABLED=1 go build -race -tags verif -o /dev/null ./cmd/vcheck 2>/dev/null
+# cgo-linked build of the harness (C11's cgo-linked children)
+CGO_ENABLED=1 go build -tags "verif cgolink" -o /dev/null ./cmd/vcheck 2>/dev/null
 # standard library for every target of the distribution list (C19)
 cd /repo && go tool dist list | xargs -P 16 -I{} sh -c 'GOOS=$(echo {} | cut -d/ -f1) GOARCH=$(echo {} | cut -d/ -f2) go build ./ ./arch ./internal/unix >/dev/null 2>&1'
 exit 0
